@@ -46,12 +46,9 @@ TRUSTED = ['per-input wall-clock budget enforced with SIGALRM (10 s for <= 4 KB)
 ASSUMPTIONS = ['admissible failures: RuntimeError from LaTeX inline code without a free \\\\verb delimiter; pygments ClassNotFound '
                'with fail_on_unsupported_language=True; RecursionError only beyond nesting depth 100']
 PARTIAL = ['the theorems cover the parser (block phase, token constructors, inline phase) and the Html, Markdown, Jira and XWiki '
-           'renderers (C01_html_total, C01_markdown_total, C01_jira_total, C01_xwiki_total_partial); LaTeX / Ast / Toc / '
+           'renderers (C01_html_total, C01_markdown_total, C01_jira_total, C01_xwiki_total, C01_latex_total_or_refusal); Ast / Toc / '
            'GithubWiki / MathJax renderers are total Lean functions by construction of their models (no raise site other than '
            'the documented LaTeX refusal), their totality on the implementation is explored; Pygments is not modelled',
-           'C01_xwiki_total_partial: the parser model does not produce the two XWiki macro tokens, so for texts in which a macro '
-           'pattern matches the theorem speaks about another parse than the code\'s; those texts are compared on the tree '
-           'path (xwiki.render.tree) and explored on the implementation',
            'wall-clock termination and the interpreter recursion limit are runtime behaviour: measured on the '
            'implementation (depth <= 100), represented in the model by the gas bound']
 
